@@ -22,7 +22,7 @@ def sym(x):
 
 
 def ite(c, a, b):
-    if isinstance(c, bool):
+    if not sym(c):
         return a if c else b
     return z3.If(c, a, b)
 
@@ -56,6 +56,8 @@ def eq(a, b):
         return a == b
     if a is None or b is None:
         return a is b
+    if not isinstance(a, (int, float)) and not hasattr(a, "__float__"):
+        return a == b
     a, b = float(a), float(b)
     return abs(a - b) <= TOL * max(1.0, abs(a), abs(b))
 
